@@ -150,7 +150,8 @@ Proof.
   destruct tt; cbn [negb].
   2:{ (* head-only *)
     destruct lz.
-    - rewrite lazy_lines_plain; [reflexivity| | |].
+    - cbv zeta. rewrite firstn_length.
+      rewrite lazy_lines_plain; [reflexivity| | |].
       + intros _. apply Nat.ltb_ge. lia.
       + lia.
       + right. apply Nat.ltb_ge. lia.
